@@ -186,16 +186,34 @@ inline void adapter_matrix(const vf::opts &o, vf::report &R, vf::team &T, uint64
         // ---------------- oracles
         std::string err;
         outcome expect;
-        if (X.what == FA_VALUE) { expect.state = PS_VALUE; expect.val = AD_SRC_VALUE; } else if (X.what == FA_EXC) { expect.state = PS_EXC; expect.code = 55; } else expect.state = PS_CANCELED;
-        if (is_conv) {
-            if (X.what == FA_VALUE) { if (X.conv_throws) { expect.state = PS_EXC; expect.code = 77; } else expect.val = conv_from_int ? AD_SRC_VALUE + 1000 : 1000; }
-            if (!X.out->ready()) err = "outer future of the converter still pending after the source was resolved";
-            else { outcome got = read_future(*X.out, nullptr, 0); if (!(got == expect)) err = "converter delivered " + got.str() + " to the outer future, expected " + expect.str(); }
-        } else if (X.adapter != AD_DISCARD) {
-            if (X.adapter == AD_CALLBACK_AWAIT || X.adapter == AD_CALLBACK_AWAIT_ALLOC || X.adapter == AD_MAKE_PROMISE || X.adapter == AD_MAKE_PROMISE_STORAGE || X.adapter == AD_CALL_FN_AWAITER) {
-                if (X.cb_calls.load() != 1) err = "completion callback ran " + std::to_string(X.cb_calls.load()) + " times";
-                else if (!(X.seen == expect)) err = "completion callback received " + X.seen.str() + ", expected " + expect.str();
+        auto judge = [&]() { // verdict on the operation that has just completed on the adapter
+            expect = outcome();
+            if (X.what == FA_VALUE) { expect.state = PS_VALUE; expect.val = AD_SRC_VALUE; } else if (X.what == FA_EXC) { expect.state = PS_EXC; expect.code = 55; } else expect.state = PS_CANCELED;
+            if (is_conv) {
+                if (X.what == FA_VALUE) { if (X.conv_throws) { expect.state = PS_EXC; expect.code = 77; } else expect.val = conv_from_int ? AD_SRC_VALUE + 1000 : 1000; }
+                if (!X.out->ready()) err = "outer future of the converter still pending after the source was resolved";
+                else { outcome got = read_future(*X.out, nullptr, 0); if (!(got == expect)) err = "converter delivered " + got.str() + " to the outer future, expected " + expect.str(); }
+            } else if (X.adapter != AD_DISCARD) {
+                if (X.adapter == AD_CALLBACK_AWAIT || X.adapter == AD_CALLBACK_AWAIT_ALLOC || X.adapter == AD_MAKE_PROMISE || X.adapter == AD_MAKE_PROMISE_STORAGE || X.adapter == AD_CALL_FN_AWAITER) {
+                    if (X.cb_calls.load() != 1) err = "completion callback ran " + std::to_string(X.cb_calls.load()) + " times";
+                    else if (!(X.seen == expect)) err = "completion callback received " + X.seen.str() + ", expected " + expect.str();
+                }
             }
+        };
+        judge();
+        // "exactly once PER awaited operation": converter and call_fn_future_awaiter objects are made to be used again - a second (and
+        // third) operation on the SAME adapter object, started after the previous one completed
+        bool reusable = is_conv || X.adapter == AD_CALL_FN_AWAITER;
+        for (int again = 0; again < 2 && err.empty() && reusable && r.chance(2, 3); again++) {
+            X.what = (int)r.below(3); X.timing = r.chance(1, 2) ? AT_BEFORE : AT_LATER_SAME_THREAD;
+            X.conv_throws = conv_from_int && X.what == FA_VALUE && r.chance(1, 4);
+            X.cb_calls.store(0); X.seen = outcome(); X.out.reset(); X.prom_ready.store(0);
+            desc += std::string(" ; again on the same object: ") + fa_name(X.what) + (X.conv_throws ? " (converter throws)" : "") + " / " + at_name(X.timing);
+            ad_register(X);
+            if (X.timing == AT_LATER_SAME_THREAD) ad_resolve(X);
+            X.src_prom.reset(); X.src_prom_void.reset(); X.src_prom_tracked.reset();
+            judge();
+            if (!err.empty()) err = "second use of the adapter object: " + err;
         }
         if (err.empty() && !X.storage.balanced()) err = "helper block in the supplied storage: " + std::to_string(X.storage.allocs.load()) + " allocations, " + std::to_string(X.storage.deallocs.load()) + " releases";
         if (err.empty() && (X.adapter == AD_CALLBACK_AWAIT_ALLOC || X.adapter == AD_MAKE_PROMISE_STORAGE) && X.storage.allocs.load() != 1) err = "supplied storage was not used exactly once";
